@@ -213,6 +213,10 @@ def step (s : St) : List String → St × String
     | none => (s, "bad-op")
   | ["decide", c, l, i] =>
     if validLocal l && validInject i then (s, decideLine (c = "1") l i) else (s, "bad-op")
+  | ["close-during-reconnect"] =>
+    -- local `Close` ⇒ `ErrClosed` is what the property asks for (the real client loses the
+    -- Close when it races a reconnect: observation, `replays/C18-close-during-reconnect.ops`)
+    (s, "decide closed")
   | ["proc", _] => (s, "proc before=1 recovered=1")
   | ws =>
     if !s.started then (s, "bad-op") else
